@@ -160,4 +160,12 @@ META = {
           "Part B: a scripted outstation attacks each step (excess delay, five kinds of unexpected objects, NEED_TIME, IIN2 errors, overflow at the 48-bit limit): Err and no WRITE after a bad first step. Part C: the real outstation adds exactly the elapsed virtual time to g50v3, rejects g50v3 without a preceding RECORD_CURRENT_TIME or on 48-bit overflow, passes g50v1 unchanged and reports the application's processing delay."),
     note="Per-frame jitter is not modelled (the bounds in the property are stated for fixed one-way delays); a failed synchronisation that still changed the clock is outside the property.",
  ),
+ "C10": dict(
+    engine="vh",
+    design_ref="5.10",
+    technique="runtime monitor over a paired simulation (real outstation database and writers, real master parser/extraction/handler): differential oracle against a hand-written per-variation capability function, boundary-value workload",
+    text=("For generated databases (all eight point types, every configurable static and event variation, indices including 0, 255/256 and 65535) and updates with boundary values, arbitrary flag octets and 48-bit times, the master fetches by class 0, by explicit variation, by event class or receives unsolicited responses. Every record handed to the ReadHandler must equal what its variation can carry of the value written: same index; exact state / counter (low 16 bits for 16-bit counters) / IEEE value; integers and singles saturated with OVER_RANGE set exactly when out of range (NaN into an integer variation must be flagged); "
+          "flag octet preserved (value bits folded for binary types), ONLINE for flag-less variations, packed variations only for plainly ONLINE points; absolute times exact, relative times (g2v3/g4v3 with g51 common time) reconstructed exactly including the synchronisation state; no time where the variation has none; every forced event delivered once, in order per point."),
+    note="Frozen analog inputs have no database representation in this library and are covered on the parser side by C09 only.",
+ ),
 }
